@@ -743,3 +743,78 @@ mod verif_facade {
         }
     }
 }
+
+#[cfg(feature = "verif-hooks")]
+impl State {
+    /// `[tag, a, b, c, d, e]`, see hooks/apply_dispatch_hooks.py (verification hook, read-only).
+    pub(super) fn verif_code(&self) -> Vec<i64> {
+        fn ini(i: Initiator) -> i64 {
+            match i {
+                Initiator::User => 0,
+                Initiator::Library => 1,
+                Initiator::Remote => 2,
+            }
+        }
+        fn peer(p: Peer) -> i64 {
+            match p {
+                Peer::AwaitingHeaders => 0,
+                Peer::Streaming => 1,
+            }
+        }
+        fn err(tag: i64, e: &Error) -> Vec<i64> {
+            match e {
+                Error::Reset(id, reason, i) => {
+                    vec![
+                        tag,
+                        0,
+                        u32::from(*reason) as i64,
+                        ini(*i),
+                        u32::from(*id) as i64,
+                        0,
+                    ]
+                }
+                Error::GoAway(d, reason, i) => {
+                    vec![
+                        tag,
+                        1,
+                        u32::from(*reason) as i64,
+                        ini(*i),
+                        0,
+                        d.len() as i64,
+                    ]
+                }
+                Error::Io(kind, msg) => {
+                    let k = match kind {
+                        io::ErrorKind::BrokenPipe => 1,
+                        io::ErrorKind::UnexpectedEof => 2,
+                        io::ErrorKind::ConnectionReset => 3,
+                        io::ErrorKind::Other => 4,
+                        _ => 9,
+                    };
+                    vec![
+                        tag,
+                        2,
+                        k,
+                        msg.is_some() as i64,
+                        0,
+                        msg.as_ref().map(|m| m.len() as i64).unwrap_or(0),
+                    ]
+                }
+            }
+        }
+        match &self.inner {
+            Inner::Idle => vec![0, 0, 0, 0, 0, 0],
+            Inner::ReservedLocal => vec![1, 0, 0, 0, 0, 0],
+            Inner::ReservedRemote => vec![2, 0, 0, 0, 0, 0],
+            Inner::Open { local, remote } => vec![3, peer(*local), peer(*remote), 0, 0, 0],
+            Inner::HalfClosedLocal(p) => vec![4, peer(*p), 0, 0, 0, 0],
+            Inner::HalfClosedRemote(p) => vec![5, peer(*p), 0, 0, 0, 0],
+            Inner::Closed(Cause::EndStream) => vec![6, 0, 0, 0, 0, 0],
+            Inner::Closed(Cause::Error(e)) => err(7, e),
+            Inner::Closed(Cause::ErrorAfterEndStream(e)) => err(8, e),
+            Inner::Closed(Cause::ScheduledLibraryReset(r)) => {
+                vec![9, 0, u32::from(*r) as i64, 0, 0, 0]
+            }
+        }
+    }
+}
